@@ -86,8 +86,9 @@ class BaseTranslateFilter:
             raise TranslationKeyError(
                 f"unknown message variable {err}", token=None
             ) from err
-        except (ValueError, TypeError) as err:
-            raise TranslationValueError(str(err), token=None) from err
+        except (ValueError, TypeError, OverflowError, MemoryError) as err:
+            # Including a field width no string could have, like `%99999999999s`.
+            raise TranslationValueError(str(err) or "format error", token=None) from err
 
     def _resolve_translations(self, context: RenderContext) -> Translations:
         return cast(
